@@ -29,6 +29,8 @@ FIXED = [
     {"<start>": ["<a><b>"], "<a>": ["", "a<a>"], "<b>": ["bb", "b"]},
     {"<start>": ["<e>"], "<e>": ["(<e>+<e>)", "x", "yy"]},
     {"<start>": ["<w>"], "<w>": ["<byte><byte>", "<byte>"], "<byte>": ["<hex><hex>"], "<hex>": ["0", "f"]},
+    # nonterminals that are nullable only indirectly (<opt> has no "" alternative of its own)
+    {"<start>": ["<opt>k<opt>"], "<opt>": ["<ws>"], "<ws>": ["", " <ws>"]},
 ]
 COUNTG = {"<start>": ["<list>"], "<list>": ["<item>,<list>", "<item>"], "<item>": ["(<item>|<item>)", "i", "<opt>"], "<opt>": ["o", ""]}
 COUNT_GRAPH = gg.GrammarGraph.from_grammar(COUNTG)
@@ -79,7 +81,7 @@ def _fixed(g: int, nt: int, n: int) -> bool:
 
 def h_fixed_length(xs: List[int]) -> bool:
     """
-    pre: len(xs) == 3 and 0 <= xs[0] < 4 and 0 <= xs[1] < 4 and 0 <= xs[2] <= NMAX
+    pre: len(xs) == 3 and 0 <= xs[0] < 5 and 0 <= xs[1] < 4 and 0 <= xs[2] <= NMAX
     post: _
     """
     g, nt, n = [int(x) for x in vlib.realize(xs)]
